@@ -223,6 +223,10 @@ func (g *gen) step() Step {
 	case 37, 38:
 		gens := [][]int{{3, 2, 2, 2, 0}, {3, -4, 6, 8, 1}, {4, 2, 4, 6, 0}, {1, 2, 3, 4, 0}, {5, 2, 5, 0, 0}, {9, 2, 0, 0, 1}, {6, 2, 5, 0, 0}, {3, 2, -2, 2, 0}}
 		c := gens[g.r.Intn(len(gens))]
+		if g.r.Intn(2) == 0 {
+			// any generator with parameters from a small domain: equal and nearly equal tuples recur within a history
+			c = []int{1 + g.r.Intn(15), []int{2, 3, 4}[g.r.Intn(3)], 3 + g.r.Intn(3), []int{0, 2, 3}[g.r.Intn(3)], g.r.Intn(2)}
+		}
 		return Step{Op: "Prim", Dst: dst, Src: []int{}, Args: args("gen", c[0], "p", c[1:])}
 	case 39, 40:
 		k := attrPool[g.r.Intn(len(attrPool))]
